@@ -2,6 +2,8 @@ import AmaranthVerif.Proofs.Lowering
 import AmaranthVerif.Proofs.AssignBits5
 import AmaranthVerif.Proofs.ProcessSpec
 import AmaranthVerif.Proofs.ProcessModelSpec
+import AmaranthVerif.Proofs.FsmRefine
+import AmaranthVerif.Proofs.FsmPrune
 
 /-!
 # C02 — assignments and control flow: last active assignment wins, per bit
@@ -36,6 +38,12 @@ Proved here, for every program of any nesting and every state (`EnvOk`):
   of every signal is as the other processes left it. `sync_process_writes`: hence a synchronous process (which
   starts from the current values) changes the shared state by exactly its active writes; `comb_process`: a
   combinational process leaves a driven bit that no active assignment writes at its initial value.
+
+* FSMs (`Model/Fsm.lean` follows `Module.FSM/State/next`/`_pop_ctrl`, `Spec/FsmSpec.lean` reads the property: an FSM is
+  in a state *by name*, a State block is selected iff it is the current state, the last active `m.next` decides the
+  next state, `ongoing(S)` is 1 iff the current state is `S`, the FSM starts and restarts in `init=` or the first state
+  defined): `fsm_encoding_injective`, `fsm_step_refines` (+ `fsm_register_moves`), `fsm_ongoing`, `fsm_initial`,
+  `fsm_reset_initial`, `fsm_unused_code`, `lowering_prune` — see the section "FSMs" below.
 
 Not proved for all inputs (compared on every run): that the masked bits are *only* the statically driven ones
 (the Spec's `progDrives`; the masks over-approximate below part-selects by construction).
@@ -159,6 +167,153 @@ theorem driver_processes (ctx : Ctx) (inits : Env) (rl : List Bool) (rst : Optio
     syncProcess ctx inits rl rst body cur = commitInto ctx body (syncNext ctx inits rl rst body cur) cur ∧
     combProcess ctx inits body cur = commitInto ctx body (combNext ctx inits body cur) cur := ⟨rfl, rfl⟩
 
+
+/-! ## FSMs
+
+`FProg` is the DSL with domains and FSMs as written; `FProg.lowerListD d` is what `Module` builds for domain `d`
+(the `Switch` over the state register, `m.next` as a register load; codes in order of first mention), a `List Prog`
+to which everything above applies; `fsmSpecStep` is the Spec (states by name). `Agrees cur σ fs`: the configuration
+`σ` names, for every FSM of `fs`, the state its register holds in `cur` (`none`: no state's code). -/
+
+/-- **(a) Distinct state names get distinct codes, all within the register's width.** Every state that is defined (and
+every state first mentioned by `m.next` / `ongoing()`) has a code; a code belongs to one name only (also against names
+never mentioned); it fits the `fsmWidth`-bit unsigned register; and decoding it gives the name back. -/
+theorem fsm_encoding_injective (entries : FsmEntries) :
+    (∀ s ∈ definedStates entries, s ∈ encOrder entries) ∧
+    (∀ s ∈ encOrder entries, ∀ t, code (encOrder entries) s = code (encOrder entries) t → s = t) ∧
+    (∀ s ∈ encOrder entries,
+      (Shape.mk (fsmWidth (encOrder entries).length) false).contains (code (encOrder entries) s : Int)) ∧
+    (∀ s ∈ encOrder entries, decode (encOrder entries) (code (encOrder entries) s : Int) = some s) :=
+  ⟨fun s hs => defined_mem_encOrder entries s hs, fun _ hs _ h => code_inj hs h, fun _ hs => code_contained hs,
+   fun _ hs => decode_code hs⟩
+
+/-- **(b) One active edge of a synchronous domain refines the Spec's step.** For every program with FSMs the DSL
+accepts (`FProg.listOk`), whose FSMs have pairwise distinct state registers that no assignment addresses, in every
+state `cur` whose registers hold what the configuration `σ` says:
+
+1. the active assignments of the lowered program are exactly the Spec's events in program order — the assignments of
+   the bodies of the *current* states (with every enclosing If/Switch selected), each with the value of its right-hand
+   side, and for every active `m.next = S` the load of `S`'s code into that FSM's register — nothing else;
+2. after the edge (the compiled process on the lowered statements: `syncProcess`) the registers hold what the Spec's
+   next configuration says (last active `m.next` wins, none = stay);
+3. every other signal bit is as in the Spec's next state. -/
+theorem fsm_step_refines (ctx : Ctx) (cur : Env) (hok : EnvOk ctx cur) (hC : EnvN ctx cur) (inits : Env) (rl : List Bool)
+    (d : String) (hd : d ≠ "comb") (items : List FProg) (hwf : FProg.listOk ctx none items = true)
+    (hdist : ((FProg.listFsms items).map (·.1.reg)).Nodup)
+    (σ : Conf) (hσ : Agrees cur σ (FProg.listFsms items))
+    (ht : ∀ w ∈ Ev.writes (FProg.listEvents ctx cur σ d none items),
+      w.1.twf ctx = true ∧ w.1.noAlias ctx cur ∧ ∀ f ∈ FProg.listFsms items, ∀ b, some (f.1.reg, b) ∉ lbits ctx cur w.1)
+    (htg : ∀ e ∈ stmtTargets (lowerList ctx (FProg.lowerListD d none items)), e.twf ctx = true ∧ e.noAlias ctx cur) :
+    Prog.listWrites ctx cur (FProg.lowerListD d none items) =
+      (FProg.listEvents ctx cur σ d none items).map Ev.toWrite ∧
+    Agrees (syncProcess ctx inits rl none (lowerList ctx (FProg.lowerListD d none items)) cur)
+      (fsmSpecStep ctx items d cur cur σ).2 (FProg.listFsms items) ∧
+    ∀ i b, i < ctx.length → b < (ctx.shape i).width → (∀ f ∈ FProg.listFsms items, f.1.reg ≠ i) →
+      bitAt (syncProcess ctx inits rl none (lowerList ctx (FProg.lowerListD d none items)) cur) i b =
+        bitAt (fsmSpecStep ctx items d cur cur σ).1 i b := by
+  have hregs := listOk_regs ctx items none hwf
+  have hw := lowerListD_writes ctx cur σ d items none hσ hregs
+  have hPok := lowerListD_ok ctx d items none hwf (fun _ _ e => by cases e)
+  have hgoto := fun h es s hm => top_events_goto ctx cur σ d items h es s hm
+  have htw : ∀ w ∈ Prog.listWrites ctx cur (FProg.lowerListD d none items), w.1.twf ctx = true ∧ w.1.noAlias ctx cur := by
+    rw [hw]
+    intro w hm
+    simp only [List.mem_map] at hm
+    obtain ⟨e, he, rfl⟩ := hm
+    cases e with
+    | write l v =>
+      have hin := write_mem_writes _ l v he
+      exact ⟨(ht _ hin).1, (ht _ hin).2.1⟩
+    | goto h es s =>
+      refine ⟨?_, trivial⟩
+      simp only [Ev.toWrite, Expr.twf, decide_eq_true_eq]
+      exact (hregs _ (hgoto h es s he).1).1
+  have hstep := model_eq_spec_sync ctx cur hok hC inits rl _ hPok htg htw
+  rw [hstep, progStep_base_self ctx _ cur hC, hw]
+  obtain ⟨h1, h2⟩ := step_agrees ctx cur hC d items hregs hdist σ hσ (fun w hw' => ⟨(ht w hw').1, (ht w hw').2.2⟩)
+  have hspec : fsmSpecStep ctx items d cur cur σ =
+      (applyWrites ctx cur (Ev.writes (FProg.listEvents ctx cur σ d none items)) cur,
+       σ.after (FProg.listEvents ctx cur σ d none items)) := by
+    unfold fsmSpecStep
+    simp only [hd, if_false, List.map_nil, List.append_nil]
+    rw [stepWith_self ctx cur _ _ hC]
+  rw [hspec]
+  exact ⟨rfl, h1, h2⟩
+
+/-- … in the words of the task: after the edge the register of an FSM holds the code of `s'` exactly when the Spec's
+next configuration puts the FSM in `s'` (for every state `s'` of its encoding). -/
+theorem fsm_register_moves (order : List String) (hn : order.Nodup) (σ' : Conf) (reg : Nat) (v : Int)
+    (hag : σ' reg = decode order v) (s' : String) (hs : s' ∈ order) :
+    v = (code order s' : Int) ↔ σ' reg = some s' := by
+  rw [hag]; exact (decode_eq_some_iff hn hs).symm
+
+/-- **(c) `ongoing(S)` equals `state == code S`, combinationally.** The top-level combinational statements an FSM
+contributes assign, to the signal of every encoded state `S`, the Spec's `ongoing(S)` (1 iff the FSM is in `S`), in
+every state; and after they ran (on any pending values `X`) the signal `fsm.ongoing(S)` holds exactly that value —
+provided the `ongoing` signals are distinct one-bit unsigned signals of the design. -/
+theorem fsm_ongoing (ctx : Ctx) (cur : Env) (σ : Conf) (h : FsmHdr) (entries : FsmEntries)
+    (hag : σ h.reg = decode (encOrder entries) (cur.val h.reg)) :
+    (∀ s ∈ encOrder entries,
+      denote ctx cur (.op2 .eq (.sig h.reg) (constOf (code (encOrder entries) s))) = ongoingSpec σ h.reg s) ∧
+    Prog.listWrites ctx cur (fsmOngoing h (encOrder entries) (encOrder entries)) =
+      (encOrder entries).map (fun s => (Expr.sig ((h.og.lookup s).getD 0), ongoingSpec σ h.reg s)) ∧
+    ((∀ s ∈ encOrder entries,
+        (h.og.lookup s).getD 0 < ctx.length ∧ ctx.shape ((h.og.lookup s).getD 0) = ⟨1, false⟩) →
+     (∀ a ∈ encOrder entries, ∀ c ∈ encOrder entries, (h.og.lookup a).getD 0 = (h.og.lookup c).getD 0 → a = c) →
+     ∀ (X : Env), EnvN ctx X → ∀ s ∈ encOrder entries,
+      (applyWrites ctx cur (Prog.listWrites ctx cur (fsmOngoing h (encOrder entries) (encOrder entries))) X).val
+          ((h.og.lookup s).getD 0) = ongoingSpec σ h.reg s) :=
+  ⟨fun s hs => ongoing_value ctx cur σ h _ hag (encOrder_nodup entries) s hs,
+   ongoing_writes ctx cur σ h _ hag (encOrder_nodup entries) _ (fun _ hx => hx),
+   fun hog hinj X hX s hs => ongoing_signal ctx cur σ h _ hag (encOrder_nodup entries) hog hinj X hX s hs⟩
+
+/-- **(d) The initial state.** The register's initial value (`fsmInitCode`: the code of `init=`, else of the first state
+*defined*) decodes to the Spec's initial state, whatever the order in which the states got their codes. -/
+theorem fsm_initial (h : FsmHdr) (entries : FsmEntries)
+    (hinit : ∀ s, h.init = some s → s ∈ definedStates entries)
+    (hall : ∀ s ∈ encOrder entries, s ∈ definedStates entries) :
+    decode (encOrder entries) (fsmInitCode h entries : Int) = specInit h entries :=
+  init_decodes h entries hinit hall
+
+/-- **(d) … and after a reset edge.** At an active edge with the domain's reset asserted, the register of an FSM with an
+`m.next` in the domain's statements (`.sig reg` is a target; it is not reset-less) holds its initial value again,
+whatever state it was in and whatever `m.next` was active — i.e. the FSM is back in its initial state. -/
+theorem fsm_reset_initial (ctx : Ctx) (cur : Env) (hC : EnvN ctx cur) (inits : Env) (hI : EnvN ctx inits)
+    (rl : List Bool) (r : Int) (hr : (pyAnd 1 r != 0) = true) (body : Stmt)
+    (htw : ∀ e ∈ stmtTargets body, e.twf ctx = true)
+    (h : FsmHdr) (entries : FsmEntries) (hreg : h.reg < ctx.length)
+    (hdrv : Expr.sig h.reg ∈ stmtTargets body) (hrl : rl.getD h.reg false = false)
+    (hinit : inits.val h.reg = (fsmInitCode h entries : Int))
+    (hi : ∀ s, h.init = some s → s ∈ definedStates entries)
+    (hall : ∀ s ∈ encOrder entries, s ∈ definedStates entries) :
+    (syncProcess ctx inits rl (some r) body cur).val h.reg = (fsmInitCode h entries : Int) ∧
+    decode (encOrder entries) ((syncProcess ctx inits rl (some r) body cur).val h.reg) = specInit h entries := by
+  have := reset_loads_init ctx cur hC inits hI rl r hr body htw h.reg hreg hdrv hrl
+  rw [this, hinit]
+  exact ⟨rfl, init_decodes h entries hi hall⟩
+
+/-- **(e) A register value that is no state's code** (negative, or `≥` the number of encoded states — possible whenever
+that number is not a power of two, and for a single state): the FSM block executes nothing — no State body, no
+`m.next` — in any domain, so a program consisting of that FSM leaves every signal, the register included, unchanged at
+the edge. (This is what the code does: the `Switch` has no case for such a value and no default.) -/
+theorem fsm_unused_code (ctx : Ctx) (cur : Env) (hC : EnvN ctx cur) (d : String) (cx : Option (FsmHdr × FsmEntries))
+    (h : FsmHdr) (entries : FsmEntries)
+    (hv : cur.val h.reg < 0 ∨ ((encOrder entries).length : Int) ≤ cur.val h.reg) :
+    decode (encOrder entries) (cur.val h.reg) = none ∧
+    Prog.listWrites ctx cur (FProg.lowerD d cx (.fsm h entries)) = [] ∧
+    progStep ctx (FProg.lowerD d cx (.fsm h entries)) cur cur = cur := by
+  have hdec := decode_none_of_unused (encOrder entries) (cur.val h.reg) hv
+  have hnw := fsm_no_state_no_writes ctx cur d cx h entries hdec
+  refine ⟨hdec, hnw, ?_⟩
+  rw [progStep_base_self ctx _ cur hC, hnw]; rfl
+
+/-- The structural comparison of the model's statements with the ones amaranth built is made after `Stmt.prune`;
+pruning does not change what a process does. -/
+theorem lowering_prune (ctx : Ctx) (inits : Env) (rl : List Bool) (rst : Option Int) (s : Stmt) (cur : Env) :
+    combProcess ctx inits s.prune cur = combProcess ctx inits s cur ∧
+    syncProcess ctx inits rl rst s.prune cur = syncProcess ctx inits rl rst s cur :=
+  prune_process ctx inits rl rst s cur
+
 /-! ### F9: without `noAlias` the compiled assignment is not the Spec's
 
 `Cat(t, t).bit_select(o, 1).eq(1)` with `t = 0`, `o = 0`: the Spec (and the testbench, and the netlist)
@@ -195,5 +350,149 @@ example : commitInto exCtx (lowerList exCtx exProg) (execRtl exCtx exEnv (lowerL
 example : (stmtMask exCtx (lowerList exCtx exProg) [0, 0, 0, 0]) = [0, 0, 15, 15] := by decide
 example : syncProcess exCtx [0, 0, 0, 0] [] none (lowerList exCtx exProg) exEnv = progStep exCtx exProg exEnv exEnv := by decide
 example : ∀ e ∈ stmtTargets (lowerList exCtx exProg), e.twf exCtx = true := by decide
+
+/-! ### Non-vacuity for the FSM theorems: three states, one `m.next` under an If, codes not in definition order -/
+
+/-- signals: 0 `go` (1 bit), 1 `cnt` (4 bits), 2 the state register (2 bits), 3..5 `ongoing(A)`, `ongoing(C)`, `ongoing(B)` -/
+def fsmCtx : Ctx := [⟨1, false⟩, ⟨4, false⟩, ⟨2, false⟩, ⟨1, false⟩, ⟨1, false⟩, ⟨1, false⟩]
+def fsmHdr : FsmHdr := ⟨2, "sync", none, [("A", 3), ("C", 4), ("B", 5)]⟩
+/-- `A: If go: next = C` · `B: cnt += 1; next = A` · `C: next = B`. `C` is first mentioned by `m.next`, so the codes are
+A=0, C=1, B=2 (definition order: A, B, C); the register is 2 bits wide and code 3 is unused. -/
+def fsmEntries : FsmEntries :=
+  [("A", some [.ifs [(.sig 0, [.next "C"])] []]),
+   ("B", some [.assign "sync" (.sig 1) (.op2 .add (.sig 1) (.const 1 ⟨1, false⟩)), .next "A"]),
+   ("C", some [.next "B"])]
+def fsmProg : List FProg := [.fsm fsmHdr fsmEntries]
+def fsmConf (s : Option String) : Conf := fun r => if r = 2 then s else none
+def fsmInits : Env := [0, 0, 0, 0, 0, 0]
+/-- in state `B` with `go = 1`, `cnt = 5` -/
+def fsmEnvB : Env := [1, 5, 2, 0, 0, 1]
+
+example : encOrder fsmEntries = ["A", "C", "B"] ∧ definedStates fsmEntries = ["A", "B", "C"] := by decide
+example : fsmWidth 3 = 2 ∧ fsmInitCode fsmHdr fsmEntries = 0 ∧ specInit fsmHdr fsmEntries = some "A" := by decide
+example : FProg.listOk fsmCtx none fsmProg = true := by decide
+
+theorem fsmEnvB_ok : EnvOk fsmCtx fsmEnvB := by
+  intro i
+  match i with
+  | 0 => decide
+  | 1 => decide
+  | 2 => decide
+  | 3 => decide
+  | 4 => decide
+  | 5 => decide
+  | n + 6 => simp [Ctx.shape, Env.val, fsmCtx, fsmEnvB, Shape.WF, Shape.contains, Shape.lo, Shape.hi, Shape.u]
+
+theorem envN_of_ok (ctx : Ctx) (E : Env) (hl : E.length = ctx.length) (h : EnvOk ctx E) : EnvN ctx E :=
+  ⟨hl, fun i _ => h i⟩
+
+theorem fsmWritesB : Ev.writes (FProg.listEvents fsmCtx fsmEnvB (fsmConf (some "B")) "sync" none fsmProg) = [(.sig 1, 6)] := by
+  rfl
+
+theorem fsmTargets : stmtTargets (lowerList fsmCtx (FProg.lowerListD "sync" none fsmProg)) = [.sig 2, .sig 1, .sig 2, .sig 2] := by
+  rfl
+
+example : Agrees fsmEnvB (fsmConf (some "B")) (FProg.listFsms fsmProg) := by unfold Agrees; decide
+example : ((FProg.listFsms fsmProg).map (·.1.reg)).Nodup := by decide
+
+theorem fsmFsms : FProg.listFsms fsmProg = [(fsmHdr, fsmEntries)] := rfl
+
+/-- `fsm_step_refines` applies to the FSM in state `B` (all hypotheses hold) … -/
+theorem fsm_step_example :
+    Agrees (syncProcess fsmCtx fsmInits [] none (lowerList fsmCtx (FProg.lowerListD "sync" none fsmProg)) fsmEnvB)
+      (fsmSpecStep fsmCtx fsmProg "sync" fsmEnvB fsmEnvB (fsmConf (some "B"))).2 (FProg.listFsms fsmProg) :=
+  (fsm_step_refines fsmCtx fsmEnvB fsmEnvB_ok (envN_of_ok _ _ rfl fsmEnvB_ok) fsmInits [] "sync" (by decide) fsmProg
+    (by decide) (by decide) (fsmConf (some "B")) (by unfold Agrees; decide)
+    (by
+      rw [fsmWritesB, fsmFsms]
+      intro w hw
+      simp only [List.mem_singleton] at hw
+      subst hw
+      refine ⟨by decide, trivial, ?_⟩
+      intro f hf b
+      simp only [List.mem_singleton] at hf
+      subst hf
+      simp [lbits, fsmHdr])
+    (by
+      rw [fsmTargets]
+      intro e he
+      simp only [List.mem_cons, List.not_mem_nil, or_false] at he
+      rcases he with he | he | he | he <;> subst he <;> exact ⟨by decide, trivial⟩)).2.1
+
+/-- … and what it says there: `cnt` becomes 6, the register goes from B's code 2 to A's code 0, the Spec goes from `B` to `A` -/
+example : syncProcess fsmCtx fsmInits [] none (lowerList fsmCtx (FProg.lowerListD "sync" none fsmProg)) fsmEnvB
+    = [1, 6, 0, 0, 0, 1] := by decide
+example : (fsmSpecStep fsmCtx fsmProg "sync" fsmEnvB fsmEnvB (fsmConf (some "B"))).2 2 = some "A" := by decide
+example : (fsmSpecStep fsmCtx fsmProg "sync" fsmEnvB fsmEnvB (fsmConf (some "B"))).1 = [1, 6, 2, 0, 0, 1] := by decide
+/-- the `m.next` under the If: from `A` with `go = 1` to `C` (code 1), with `go = 0` stay -/
+example : syncProcess fsmCtx fsmInits [] none (lowerList fsmCtx (FProg.lowerListD "sync" none fsmProg)) [1, 5, 0, 1, 0, 0]
+    = [1, 5, 1, 1, 0, 0] := by decide
+example : (fsmSpecStep fsmCtx fsmProg "sync" [1, 5, 0, 1, 0, 0] [1, 5, 0, 1, 0, 0] (fsmConf (some "A"))).2 2 = some "C" := by decide
+example : (fsmSpecStep fsmCtx fsmProg "sync" [0, 5, 0, 1, 0, 0] [0, 5, 0, 1, 0, 0] (fsmConf (some "A"))).2 2 = some "A" := by decide
+example : (2 : Int) = (code (encOrder fsmEntries) "B" : Int) ↔ fsmConf (some "B") 2 = some "B" :=
+  fsm_register_moves (encOrder fsmEntries) (encOrder_nodup _) (fsmConf (some "B")) 2 2 (by decide) "B" (by decide)
+
+/-- `fsm_ongoing`: the hypotheses hold for the example (distinct one-bit signals 3, 4, 5) -/
+example : (applyWrites fsmCtx fsmEnvB
+      (Prog.listWrites fsmCtx fsmEnvB (fsmOngoing fsmHdr (encOrder fsmEntries) (encOrder fsmEntries))) fsmEnvB).val 5 = 1 :=
+  (fsm_ongoing fsmCtx fsmEnvB (fsmConf (some "B")) fsmHdr fsmEntries (by decide)).2.2 (by decide) (by decide)
+    fsmEnvB (envN_of_ok _ _ rfl fsmEnvB_ok) "B" (by decide)
+example : (Prog.listWrites fsmCtx fsmEnvB (FProg.listOngoing fsmProg)).map (·.2) = [0, 0, 1] := by decide
+
+/-- `fsm_initial` / `fsm_reset_initial`: from state `B`, with an active `m.next = A` … the reset edge gives code 0 = `A` -/
+example : decode (encOrder fsmEntries) (fsmInitCode fsmHdr fsmEntries : Int) = some "A" :=
+  fsm_initial fsmHdr fsmEntries (by decide) (by decide)
+example : (syncProcess fsmCtx fsmInits [] (some 1) (lowerList fsmCtx (FProg.lowerListD "sync" none fsmProg)) [1, 5, 1, 0, 1, 0]).val 2 = 0 :=
+  (fsm_reset_initial fsmCtx [1, 5, 1, 0, 1, 0] (envN_of_ok _ _ rfl (by
+      intro i
+      match i with
+      | 0 => decide
+      | 1 => decide
+      | 2 => decide
+      | 3 => decide
+      | 4 => decide
+      | 5 => decide
+      | n + 6 => simp [Ctx.shape, Env.val, fsmCtx, Shape.WF, Shape.contains, Shape.lo, Shape.hi, Shape.u]))
+    fsmInits (envN_of_ok _ _ rfl (by
+      intro i
+      match i with
+      | 0 => decide
+      | 1 => decide
+      | 2 => decide
+      | 3 => decide
+      | 4 => decide
+      | 5 => decide
+      | n + 6 => simp [Ctx.shape, Env.val, fsmCtx, fsmInits, Shape.WF, Shape.contains, Shape.lo, Shape.hi, Shape.u]))
+    [] 1 (by decide) _ (by rw [fsmTargets]; decide) fsmHdr fsmEntries (by decide) (by rw [fsmTargets]; simp [fsmHdr])
+    (by decide) (by decide) (by decide) (by decide)).1
+/-- an FSM with an explicit `init=` that is neither the first state defined nor code 0 -/
+example : fsmInitCode ⟨2, "sync", some "B", []⟩ fsmEntries = 2 ∧ specInit ⟨2, "sync", some "B", []⟩ fsmEntries = some "B" := by decide
+
+/-- `fsm_unused_code`: register = 3 (no state's code): nothing happens, although `go = 1` -/
+example : progStep fsmCtx (FProg.lowerD "sync" none (.fsm fsmHdr fsmEntries)) [1, 5, 3, 0, 0, 0] [1, 5, 3, 0, 0, 0] = [1, 5, 3, 0, 0, 0] :=
+  (fsm_unused_code fsmCtx [1, 5, 3, 0, 0, 0] (envN_of_ok _ _ rfl (by
+      intro i
+      match i with
+      | 0 => decide
+      | 1 => decide
+      | 2 => decide
+      | 3 => decide
+      | 4 => decide
+      | 5 => decide
+      | n + 6 => simp [Ctx.shape, Env.val, fsmCtx, Shape.WF, Shape.contains, Shape.lo, Shape.hi, Shape.u]))
+    "sync" none fsmHdr fsmEntries (Or.inr (by decide))).2.2
+example : syncProcess fsmCtx fsmInits [] none (lowerList fsmCtx (FProg.lowerListD "sync" none fsmProg)) [1, 5, 3, 0, 0, 0]
+    = [1, 5, 3, 0, 0, 0] := by decide
+
+/-- a nested FSM whose `m.next` names a state both FSMs have: it moves the inner FSM only -/
+def nestedProg : List FProg :=
+  [.fsm ⟨0, "sync", none, []⟩
+    [("A", some [.fsm ⟨1, "sync", none, []⟩ [("B", some [.next "A"]), ("A", some [])], .next "B"]),
+     ("B", some [])]]
+example : ((FProg.listEvents [⟨1, false⟩, ⟨1, false⟩] [0, 0] (fun _ => some "A") "sync" none nestedProg).map
+    Ev.toWrite).map (·.2) = [1] := by decide
+example : (FProg.listEvents [⟨1, false⟩, ⟨1, false⟩] [0, 0] (fun r => if r = 0 then some "A" else some "B") "sync" none
+    nestedProg).map Ev.toWrite = [(.sig 1, 1), (.sig 0, 1)] := rfl
+
 
 end Amaranth.C02
